@@ -561,7 +561,9 @@ class ZopeInterfaceClassPage(ClassPage):
             if isinstance(io, zopeinterface.ZopeInterfaceClass):
                 for io2 in io.mro():
                     method: Optional[model.Documentable] = io2.contents.get(methname)
-                    if method is not None:
+                    if method is not None and method.isVisible:
+                        # A hidden declaration (or a declaration in a hidden interface)
+                        # must not be named: keep looking for a visible one.
                         return method
         return None
 
